@@ -12,7 +12,7 @@ From LC Require Import Lib.Bytes Lib.Fields Gen.Consts Model.AtomParse Model.Dep
 Theorem C14_regex_pinned :
   PA_pkgVerRE = bs "^(.*?)-(\d+(?:\.\d+)*[a-z]?)((?:_(?:alpha|beta|pre|rc|p)\d*)+)?(?:-(r\d+))?(\*?)$" /\
   PA_pkgCatNameRE = bs "^(?:(\w[\w+.-]*)/)?(\w[\w+-]*)$".
-Proof. split; reflexivity. Qed.
+Proof. exact regex_pinned. Qed.
 Print Assumptions C14_regex_pinned.
 
 (* no character class of portage/parse/chartype.go contains byte 0: the end of input (Peek
@@ -39,7 +39,7 @@ Print Assumptions C14_decode_total.
    and cuts them into numbers+letter, suffixes, revision as written *)
 Theorem C14_version_matcher_complete : forall v g, wf_version v = true ->
   ver_tail (print_version v ++ globtxt g) = Some (MkVT (print_ver_main v) (print_sufs v) (print_rev v) g).
-Proof. intros v g H. apply ver_tail_print. now apply wf_version_wfv. Qed.
+Proof. exact version_matcher_complete. Qed.
 Print Assumptions C14_version_matcher_complete.
 
 Theorem C14_version_matcher_sound : forall x t, ver_tail x = Some t ->
@@ -49,7 +49,7 @@ Print Assumptions C14_version_matcher_sound.
 
 (* the reference recogniser of PMS 3.2 used in wf_name accepts every printed version *)
 Theorem C14_reference_version_syntax : forall v, wf_version v = true -> is_pms_version (print_version v) = true.
-Proof. intros v H. apply pms_version_print. now apply wf_version_wfv. Qed.
+Proof. exact reference_version_syntax. Qed.
 Print Assumptions C14_reference_version_syntax.
 
 (* the name/version boundary: whatever digits and hyphens category and name contain, the split
@@ -59,7 +59,7 @@ Theorem C14_name_version_boundary : forall a, wfcn a ->
      ver_split (print_catname a ++ nb 45 :: print_version v ++ globtxt g) =
      Some (print_catname a, MkVT (print_ver_main v) (print_sufs v) (print_rev v) g)) /\
   ver_split (print_catname a) = None.
-Proof. intros a W. split; [intros v g Wv; now apply ver_split_version|now apply ver_split_none]. Qed.
+Proof. exact name_version_boundary. Qed.
 Print Assumptions C14_name_version_boundary.
 
 (* atom_roundtrip: every well-formed PMS atom -- blocker, operator, category, name with digits and
@@ -105,10 +105,7 @@ Print Assumptions C14_reject_unbalanced.
 (* String() of every decoded item is its PMS text *)
 Theorem C14_string_prints_tree : forall s l, decode s = ROk l ->
   map dep_string l = map (fun d => DepParseP.sp_join (dep_toks d)) l.
-Proof.
-  intros s l E. pose proof (decode_ok_wt s l E) as Hwt. clear E. induction l as [|x l IH]; [reflexivity|].
-  cbn in Hwt. apply andb_true_iff in Hwt as [Hx Hl]. cbn [map]. f_equal; [now apply dep_string_toks|now apply IH].
-Qed.
+Proof. exact string_prints_tree. Qed.
 Print Assumptions C14_string_prints_tree.
 
 (* the per-case statement evaluated on implementation output by the correspondence check *)
@@ -118,10 +115,10 @@ Print Assumptions C14_holds.
 
 (* known finding 1: "flag? cat/pkg" (no parentheses) is accepted as "flag? ( cat/pkg )" *)
 Theorem C14_refuted_1 : exists c, C14.wf c = true /\ C14.kf c = 1%N /\ C14.spec c (C14.model c) = false.
-Proof. exists kf1_case. exact C14_refuted_1_proof. Qed.
+Proof. exact refuted_1. Qed.
 Print Assumptions C14_refuted_1.
 
 (* known finding 2: a control byte separates tokens like white space ("a/b" 0x01 "c/d") *)
 Theorem C14_refuted_2 : exists c, C14.wf c = true /\ C14.kf c = 2%N /\ C14.spec c (C14.model c) = false.
-Proof. exists kf2_case. exact C14_refuted_2_proof. Qed.
+Proof. exact refuted_2. Qed.
 Print Assumptions C14_refuted_2.
